@@ -692,7 +692,11 @@ func init() {
 			}
 			p, err := policyViaIPLD(st)
 			if err != nil {
-				return fmt.Errorf("driver built a statement the real parser rejects: %v", err)
+				// a statement of the specification's language that the real reader refuses: recorded (the trace
+				// specification has no behaviour for it), not a failure of the driver
+				emit(map[string]any{"ev": "Match", "st": st.term(), "data": dj, "match": false, "partial": false, "panic": true, "rmatch": false, "rpartial": false,
+					"note": "policy.FromIPLD refused the statement: " + err.Error()})
+				continue
 			}
 			r := matchReal(p, d)
 			pr, err := policyViaIPLD(reversed(st))
